@@ -479,6 +479,10 @@ func (e *Engine) marshalJSON(cell *Value, st *types.Struct, site ssa.Instruction
 				continue
 			}
 			if f.kind == kMessage {
+				if isTimestampPtr(f.goType) {
+					obj.add(f.json, timestampJSON(p.P), tTrue)
+					continue
+				}
 				sub := f.goType.Underlying().(*types.Pointer).Elem().Underlying().(*types.Struct)
 				obj.add(f.json, e.marshalJSON(p.P, sub, site), tTrue)
 			} else {
@@ -523,6 +527,9 @@ func (e *Engine) scalarJSON(v Value, f pfield, site ssa.Instruction) *JSON {
 		et := f.goType
 		if sl, ok := et.Underlying().(*types.Slice); ok {
 			et = sl.Elem()
+		}
+		if isTimestampPtr(et) {
+			return timestampJSON(p.P)
 		}
 		sub := et.Underlying().(*types.Pointer).Elem().Underlying().(*types.Struct)
 		return e.marshalJSON(p.P, sub, site)
@@ -749,6 +756,9 @@ func (e *Engine) scalarFromJSON(v *JSON, f pfield, site ssa.Instruction) (Value,
 		}
 		e.abort("unsupported", "protojson model: enum names")
 	case kMessage:
+		if tt := f.goType; isTimestampPtr(tt) || isTimestampSlice(tt) {
+			return e.timestampFromJSON(v, tt, bad)
+		}
 		if v.Kind != "obj" {
 			return bad()
 		}
@@ -1147,6 +1157,9 @@ func Eq2bv(a, b *Term) *Term {
 	if a.String() == b.String() {
 		return tTrue
 	}
+	if r, ok := int2bvEq(a, b); ok {
+		return r
+	}
 	return app("=", KBool, 0, a, b)
 }
 
@@ -1172,4 +1185,76 @@ func dumpJSON(j *JSON) string {
 		return "bool(" + describe(j.B) + ")"
 	}
 	return j.Kind
+}
+
+
+// ---- google.protobuf.Timestamp: an RFC 3339 string in proto3 JSON ----
+
+func isTimestampPtr(t types.Type) bool {
+	p, ok := t.Underlying().(*types.Pointer)
+	if !ok {
+		return false
+	}
+	n, ok := p.Elem().(*types.Named)
+	return ok && n.Obj().Name() == "Timestamp" && n.Obj().Pkg() != nil && n.Obj().Pkg().Path() == "google.golang.org/protobuf/types/known/timestamppb"
+}
+
+func isTimestampSlice(t types.Type) bool {
+	sl, ok := t.Underlying().(*types.Slice)
+	return ok && isTimestampPtr(sl.Elem())
+}
+
+// timestampFields: indexes of Seconds and Nanos in the generated struct.
+func timestampFields(st *types.Struct) (si, ni int) {
+	si, ni = -1, -1
+	for i := 0; i < st.NumFields(); i++ {
+		switch st.Field(i).Name() {
+		case "Seconds":
+			si = i
+		case "Nanos":
+			ni = i
+		}
+	}
+	return
+}
+
+func timestampJSON(cell *Value) *JSON {
+	s := (*cell).(Struct)
+	// the struct is timestamppb.Timestamp{state, Seconds, Nanos, unknownFields, sizeCache}
+	var sec, ns *Term
+	for _, f := range s {
+		if t, ok := f.(*Term); ok && t.K == KBV {
+			if t.W == 64 && sec == nil {
+				sec = t
+			} else if t.W == 32 && ns == nil {
+				ns = t
+			}
+		}
+	}
+	return &JSON{Kind: "str", S: timeStr("rfc3339", intOf(sec, true), intOf(bvSext(ns, 64), true))}
+}
+
+func (e *Engine) timestampFromJSON(v *JSON, tt types.Type, bad func() (Value, Value)) (Value, Value) {
+	if sl, ok := tt.Underlying().(*types.Slice); ok {
+		tt = sl.Elem()
+	}
+	if v.Kind != "str" {
+		return bad()
+	}
+	st := tt.Underlying().(*types.Pointer).Elem().Underlying().(*types.Struct)
+	si, ni := timestampFields(st)
+	c := new(Value)
+	z := zero(st).(Struct)
+	if k := v.S.TimeOf; k != nil && k.Class == "rfc3339" {
+		z[si], z[ni] = bvOfInt(k.Sec, 64), bvOfInt(k.Nsec, 32)
+	} else {
+		// arbitrary text: rejected, or parsed to an arbitrary valid instant
+		if !e.decide(e.freshBool("timestamp_text_ok")) {
+			return bad()
+		}
+		e.usedFresh = true
+		z[si], z[ni] = e.freshBV("ts_sec", 64), mkBV(32, 0)
+	}
+	*c = z
+	return Ptr{P: c}, nil
 }
